@@ -1064,10 +1064,16 @@ fn random_case(rng: &mut Rng) -> Case {
             );
             d = s.into_bytes();
         } else {
-            match rng.below(5) {
+            match rng.below(6) {
                 0 => {
                     let p = rng.below(19) as usize;
                     d[p] = *rng.pick(&DATE_BYTES);
+                }
+                5 => {
+                    // a multi-byte character over as many bytes as it is long (the total stays 19)
+                    let ch = *rng.pick(&["\u{0661}", "\u{FF11}", "\u{1D7CF}", "\u{00B2}", "\u{00E9}", "\u{0969}"]);
+                    let p = rng.below((20 - ch.len()) as u64) as usize;
+                    d.splice(p..p + ch.len(), ch.bytes());
                 }
                 1 => {
                     // a field at a boundary
@@ -1255,15 +1261,31 @@ pub fn generate(a: &Args) -> Vec<(String, Case)> {
                 }
             }
         }
-        // a two-byte character in place of two bytes (19 bytes, 18 chars) and of one byte (20 bytes)
-        for p in 0..18 {
-            let mut d = base.as_bytes().to_vec();
-            d.splice(p..p + 2, "é".bytes());
-            push(format!("date {} bytes {}..{} := e-acute", base, p, p + 2), date(&d));
+        // multi-byte characters: numeric ones of 2, 3 and 4 UTF-8 bytes (ARABIC-INDIC DIGIT ONE,
+        // FULLWIDTH DIGIT ONE, MATHEMATICAL BOLD DIGIT ONE), SUPERSCRIPT TWO (numeric, not a
+        // digit) and a letter. (a) in place of exactly as many ASCII bytes as the character is long:
+        // still 19 bytes, and slice indices fall inside the character; (b) in place of one byte:
+        // still 19 characters, more bytes.
+        for ch in ["\u{0661}", "\u{FF11}", "\u{1D7CF}", "\u{00B2}", "\u{00E9}"] {
+            let l = ch.len();
+            for p in 0..=(19 - l) {
+                let mut d = base.as_bytes().to_vec();
+                d.splice(p..p + l, ch.bytes());
+                push(format!("date {} bytes {}..{} := U+{:04X}", base, p, p + l, ch.chars().next().unwrap() as u32), date(&d));
+            }
+            for p in 0..19 {
+                let mut d = base.as_bytes().to_vec();
+                d.splice(p..p + 1, ch.bytes());
+                push(format!("date {} byte {} := U+{:04X} ({} bytes)", base, p, ch.chars().next().unwrap() as u32, 18 + l), date(&d));
+            }
         }
-        let mut d = base.as_bytes().to_vec();
-        d.splice(3..4, "é".bytes());
-        push(format!("date {} byte 3 := e-acute (20 bytes)", base), date(&d));
+        // several multi-byte digits at once, 19 bytes in total
+        for d in ["\u{0662}\u{0660}\u{0662}\u{0660}/\u{0660}\u{0661}/01 00",
+                  "\u{FF12}\u{FF10}\u{FF12}\u{FF10}/\u{FF10}1 0", "2020/01/01 00:00:\u{0660}", "2020/01/01 00:00:0\u{0661}"] {
+            if base == VALID_DATES[0] {
+                push(format!("date {:?} ({} bytes)", d, d.len()), date(d.as_bytes()));
+            }
+        }
     }
     let fields: [(usize, &[&str]); 5] = [
         (5, &["00", "01", "09", "10", "12", "13", "19", "20", "99", " 1", "1 ", "+1"]),
